@@ -15,7 +15,7 @@ def run(ctx):
     js = jobs.make_jobs(ctx.rng, optimizers.names(), ["cont", "cont-sym", "cont-zero", "cont-scalars", "multiobj", "multiobj", "disc", "binary", "mixed", "perm", "perm"], n,
                         modes=("serial", "serial", "thread") if not ctx.thorough else ("serial", "thread", "process"), max_cycles_choices=(1, 2, 3), multi=True)
     ctx.rule("all exported optimizers × tasks (continuous, multi-objective with random non-negative weights, discrete/binary/mixed/permutation for the pairs that run today) × 4 single + 2 multi objectives × min/max × seeds × modes; a sixth of the runs on an instance that has just solved another task (same space and seed, other objective/direction); half of the weighted tasks re-weighted after construction and use; a tenth with an objective that overwrites its argument after reading it; "
-             "for every reported agent the harness re-evaluates objective(position) (and np.dot with the weights) and the documented fitness formula and compares bit-for-bit; a case = one run; "
+             "plus one run per (class, algorithm parameter, validator-accepted candidate value incl. zero) (quick tier: every zero-valued candidate and 900 sampled others); for every reported agent the harness re-evaluates objective(position) (and np.dot with the weights) and the documented fitness formula and compares bit-for-bit; a case = one run; "
              "non-trivial = result with ≥ 2 generations")
     # a sixth of the runs use an optimizer instance that has just solved another task on the same space with the same seed
     # (other objective and direction): costs must still be those of THIS task's objective
@@ -35,6 +35,12 @@ def run(ctx):
     for j in ctx.rng.sample(js, len(js) // 10):
         j["scribble"] = True
         j["kind"] = j["kind"] + "+argument-overwriting-objective"
+    # every validator-accepted candidate value of every algorithm parameter (zero included: an operator switched off), one run each
+    sw = jobs.param_sweep_jobs(ctx.rng, optimizers.names(), kinds=("cont", "cont-sym", "cont-zero"), max_cycles=3, objectives=("sphere", "rastrigin", "neg", "linear"), minmaxes=("min", "max"))
+    zero = [j for j in sw if any(v == 0 and not isinstance(v, bool) for k, v in j["cfg"].items() if k not in ("max_cycles", "fitness_error"))]
+    rest = [j for j in sw if j not in zero]
+    js += sw if ctx.thorough else zero + ctx.rng.sample(rest, min(len(rest), 900))
+    ctx.extra["parameter_sweep"] = {"candidates": len(sw), "with_a_zero_value": len(zero), "run": len(sw) if ctx.thorough else len(zero) + min(len(rest), 900)}
     results = pmap(trace.run_traced, js)
     C01.judge(ctx, results, ["C02"])
 
